@@ -33,6 +33,8 @@ class HarrCheck(Check):
             yield st
         for st in H.glue_streams(rng, self.tier):
             yield st
+        for st in H.width_streams(rng, self.tier):
+            yield st
         for st in H.scenario_streams(rng, self.tier):
             yield st
         for st in H.relocation_streams(rng, self.tier):
@@ -85,7 +87,7 @@ class TheCheck(HarrCheck):
         "type in the value-semantic model; for the C code it is carried by the correspondence (guard zones, byte-exact image "
         "comparison, relocated copy observed through a second handle after every operation, ASan)",
         "hand model of qhasharr.c validated on the explored histories only; slot layout regenerated from the header (translator/harr_layout.py)",
-        "slot.count/usedslots/num modelled unbounded (exact while no home carries more than 32767 keys and maxslots < 2^31)",
+        "slot.count / hash / datasize / link and the header counters are modelled unbounded; theorem widths_suffice: on every well-formed image of fewer than 2^31 slots all stored values fit the fields of the CURRENT header (widths regenerated: HarrLayout sizeofCount/Hash/Datasize/Link/Maxslots, cross-checked by Shapes.Harr) iff no home slot carries more than 32767 keys, always for at most 32767 slots; widths_necessary names what narrower fields would violate; failing inputs for narrowed fields: one-home universes of 127..200 keys (quick), tables of 70000 / 140000 slots (thorough)",
     ]
 
     def judge_history(self, ops, impl_lines):
